@@ -86,6 +86,8 @@ var pureLib = map[string]bool{
 	"io.Reader.Read": false, "bytes.Equal": true, "bytes.Compare": true, "bytes.NewReader": false, "bytes.NewBuffer": false, "bytes.NewBufferString": false,
 	"io/ioutil.NopCloser": false, "ioutil.NopCloser": false, "io.MultiReader": false, "io.TeeReader": false, "io.LimitReader": false,
 	"math.MaxInt64": true, "math.Ceil": true, "math.Floor": true,
+	"http.ResponseWriter.Header": true, "ResponseWriter.Header": true, "http.Header.Set": false, "http.Header.Add": false, "http.Header.Del": false,
+	"http.ResponseWriter.WriteHeader": false, "ResponseWriter.WriteHeader": false, "http.Error": false,
 	"http.StatusText": true, "net/http.StatusText": true, "http.Header.Get": true, "net/http.Header.Get": true, "Header.Get": true,
 	"url.Values.Get": true, "net/url.Values.Get": true, "url.Values.Encode": true, "url.URL.String": true, "url.Values.Has": true,
 	"mux.Vars": true, "gorilla/mux.Vars": true,
@@ -132,7 +134,8 @@ func (fc *FnCtx) libStateVar(name string) string {
 }
 
 var libStateSorts = map[string]Sort{
-	"hashbuf": ArraySort(SInt, SString), // bytes written so far to a hash.Hash
+	"written": ArraySort(SInt, SString), // bytes written so far to an io.Writer / hash.Hash
+	"hashbuf": ArraySort(SInt, SString),
 	"stream":  ArraySort(SInt, SInt),    // read cursor of an io.Reader
 }
 
@@ -167,6 +170,47 @@ func init() {
 		e.hashDecls()
 		s.results = []Term{T(ArraySort(SInt, SInt), "(md5sum %s)", fc.bstr(s.args[0]).S)}
 		return true
+	}
+	libModels["md5.New"] = func(fc *FnCtx, s *CallSite) bool { return newHash(fc, s, 1, StrLit("")) }
+	libModels["sha1.New"] = func(fc *FnCtx, s *CallSite) bool { return newHash(fc, s, 2, StrLit("")) }
+	libModels["hmac.New"] = func(fc *FnCtx, s *CallSite) bool {
+		alg := 0
+		if f, ok := s.argVals[0].(*ssa.Function); ok {
+			switch shortName(f) {
+			case "sha1.New":
+				alg = 12
+			case "md5.New":
+				alg = 11
+			case "sha256.New":
+				alg = 13
+			}
+		}
+		if alg == 0 {
+			return false
+		}
+		return newHash(fc, s, alg, fc.bstr(s.args[1]))
+	}
+	for _, k := range []string{"hash.Hash.Write", "Hash.Write", "io.Writer.Write", "Writer.Write", "http.ResponseWriter.Write", "ResponseWriter.Write"} {
+		libModels[k] = modelWriterWrite
+		libWriteSets[k] = writtenWS
+	}
+	libModels["io.WriteString"] = func(fc *FnCtx, s *CallSite) bool {
+		w := fc.libStateVar("written")
+		m := fc.lookup(w)
+		fc.assign(w, Store(m, s.args[0], T(SString, "(str.++ %s %s)", Select(m, s.args[0]).S, s.args[1].S)))
+		s.results = []Term{T(SInt, "(str.len %s)", s.args[1].S), IntLit(0)}
+		fc.assumeNote("io.WriteString/Write on a hash.Hash never fail and append to the hashed message (documented behaviour of package hash)")
+		return true
+	}
+	libWriteSets["io.WriteString"] = writtenWS
+	for _, k := range []string{"hash.Hash.Sum", "Hash.Sum"} {
+		libModels[k] = modelHashSum
+		libWriteSets[k] = func(fc *FnCtx, c ssa.CallInstruction) *WriteSet {
+			ws := newWS()
+			ws.add("alloc")
+			ws.add(fc.memVar(types.Typ[types.Uint8]))
+			return ws
+		}
 	}
 	libModels["errors.New"] = freshError
 	libModels["fmt.Errorf"] = freshError
@@ -693,4 +737,66 @@ func (e *Engine) hashDecls() {
 	e.GAxiom("hexarr_md5sum", "(assert (forall ((s String)) (! (= (hexarr (md5sum s)) (md5hex s)) :pattern ((md5sum s)))))", "md5sum")
 	e.GAxiom("hexlower_md5raw", "(assert (forall ((s String)) (! (= (hexlower (md5raw s)) (md5hex s)) :pattern ((md5raw s)))))", "md5raw")
 	e.GAxiom("md5hex_shape", "(assert (forall ((s String)) (! (str.in_re (md5hex s) ((_ re.loop 32 32) (re.union (re.range \"0\" \"9\") (re.range \"a\" \"f\")))) :pattern ((md5hex s)))))", "md5hex")
+}
+
+func writtenWS(fc *FnCtx, c ssa.CallInstruction) *WriteSet {
+	ws := newWS()
+	ws.add(fc.libStateVar("written"))
+	return ws
+}
+
+func (e *Engine) digestDecls() {
+	e.hashDecls()
+	e.declBuiltin("hmacsha1hex")
+	e.GDecl("hashalg", "(declare-fun hashalg (Int) Int)")
+	e.GDecl("hashkey", "(declare-fun hashkey (Int) String)")
+	e.GDecl("digestraw", "(declare-fun digestraw (Int String String) String)")
+	e.GAxiom("digest_md5", "(assert (forall ((m String)) (! (= (digestraw 1 \"\" m) (md5raw m)) :pattern ((digestraw 1 \"\" m)))))", "digestraw")
+	e.GAxiom("digest_hmacsha1", "(assert (forall ((k String) (m String)) (! (= (hexlower (digestraw 12 k m)) (hmacsha1hex k m)) :pattern ((digestraw 12 k m)))))", "digestraw")
+	e.GAxiom("hmacsha1hex_shape", "(assert (forall ((k String) (m String)) (! (str.in_re (hmacsha1hex k m) ((_ re.loop 40 40) (re.union (re.range \"0\" \"9\") (re.range \"a\" \"f\")))) :pattern ((hmacsha1hex k m)))))", "hmacsha1hex")
+}
+
+// newHash: md5.New / sha1.New / hmac.New(alg, key).
+func newHash(fc *FnCtx, s *CallSite, alg int, key Term) bool {
+	fc.eng.digestDecls()
+	h := fc.newRef()
+	w := fc.libStateVar("written")
+	fc.assign(w, Store(fc.lookup(w), h, StrLit("")))
+	fc.assume(T(SBool, "(and (= (hashalg %s) %d) (= (hashkey %s) %s))", h.S, alg, h.S, key.S))
+	s.results = []Term{h}
+	fc.assumeNote("MD5/SHA1/HMAC are uninterpreted functions of (key, message); collision resistance and unforgeability are cryptographic assumptions")
+	return true
+}
+
+func modelWriterWrite(fc *FnCtx, s *CallSite) bool {
+	if s.recv == nil {
+		return false
+	}
+	w := fc.libStateVar("written")
+	m := fc.lookup(w)
+	fc.assign(w, Store(m, *s.recv, T(SString, "(str.++ %s %s)", Select(m, *s.recv).S, fc.bstr(s.args[0]).S)))
+	n := fc.freshConst("wn", SInt)
+	er := fc.freshConst("werr", SInt)
+	// a Writer may fail; a hash.Hash never does
+	fc.eng.GDecl("hashalg", "(declare-fun hashalg (Int) Int)")
+	fc.assume(T(SBool, "(and (>= %s 0) (<= 0 %s) (<= %s (s_len %s)) (=> (= %s 0) (= %s (s_len %s))) (=> (> (hashalg %s) 0) (= %s 0)))", er.S, n.S, n.S, s.args[0].S, er.S, n.S, s.args[0].S, s.recv.S, er.S))
+	s.results = []Term{n, er}
+	return true
+}
+
+func modelHashSum(fc *FnCtx, s *CallSite) bool {
+	fc.eng.digestDecls()
+	h := *s.recv
+	w := fc.libStateVar("written")
+	msg := Select(fc.lookup(w), h)
+	r := fc.newRef()
+	mem := fc.memVar(types.Typ[types.Uint8])
+	row := fc.freshConst("digest", ArraySort(SInt, SInt))
+	fc.assign(mem, Store(fc.lookup(mem), r, row))
+	ln := fc.freshConst("dlen", SInt)
+	fc.bstrDecl()
+	// Sum(b) appends to b; only Sum(nil) is modelled exactly
+	fc.assume(T(SBool, "(=> (= (s_len %s) 0) (and (>= %s 0) (= (bstr %s 0 %s) (digestraw (hashalg %s) (hashkey %s) %s))))", s.args[0].S, ln.S, row.S, ln.S, h.S, h.S, msg.S))
+	s.results = []Term{T(SSlice, "(mkslice %s 0 %s %s)", r.S, ln.S, ln.S)}
+	return true
 }
